@@ -122,6 +122,36 @@ def main(tier, seed):
     direct_bad += [dict(x, q1=x["query"], q2=x["query"]) for x in ebad]
     dbad, derived_checked = qtie.derived_check(tf, qs, univ)
     direct_bad += [dict(x, q1=x["query"], q2=("and", x["query"], x.get("held_with"))) for x in dbad]
+    # test(func, *args) with MUTABLE arguments (a list / set of accepted values, a dict of bounds) that the caller edits after the query was built: the
+    # function receives the live object; whenever the edited query still compares equal to a query over the original content, the two must behave alike
+    from datetime import datetime as _dtm, timezone as _tzn
+    mutable_checked = 0
+
+    def _member(v, allowed):
+        return v in allowed
+
+    def _within(v, bounds):
+        return bounds["lo"] <= v <= bounds["hi"]
+    rooms = [tf.Point(time=_dtm(2022, 1, 1, tzinfo=_tzn.utc), tags={"room": r_}, fields={"t": x_}) for r_, x_ in (("kitchen", 1), ("lab", 5), ("attic", 9))]
+    for label, build, make, edit in (
+            ("a list of accepted values", lambda a: tf.TagQuery().room.test(_member, a), lambda: ["kitchen"], lambda a: a.append("lab")),
+            ("a set of accepted values", lambda a: tf.TagQuery().room.test(_member, a), lambda: {"kitchen"}, lambda a: a.add("lab")),
+            ("a dict of bounds", lambda a: tf.FieldQuery().t.test(_within, a), lambda: {"lo": 0, "hi": 2}, lambda a: a.update(hi=6)),
+            ("a list inside a compound query", lambda a: tf.TagQuery().room.test(_member, a) | (tf.FieldQuery().t > 8), lambda: ["kitchen"], lambda a: a.append("lab"))):
+        try:
+            live = make()
+            q1, q2 = build(live), build(make())
+            eq_before = (q1 == q2)
+            edit(live)
+            eq_after = (q1 == q2)
+            b1, b2 = [bool(q1(p_)) for p_ in rooms], [bool(q2(p_)) for p_ in rooms]
+        except TypeError:
+            continue          # (a compound over an unhashable argument cannot be built: nothing to compare)
+        mutable_checked += 1
+        if eq_after and b1 != b2 and len(direct_bad) < 5:
+            direct_bad.append({"q1": f"test(func, <{label}>) whose argument was edited after the query was built", "q2": "the same call over an equal, unedited argument",
+                               "equal_before_the_edit": eq_before, "equal_after_the_edit": eq_after, "q1_on_rooms_kitchen_lab_attic": b1, "q2_on_the_same_points": b2,
+                               "why": "two queries compare equal and answer differently"})
     f = ck.work / "cases_c17.v"
     qtie.emit_eq_cases(f, qs, eq_rows, hashable)
     rc, out = coqc_file(f, timeout=1500)
@@ -147,7 +177,7 @@ def main(tier, seed):
         "trusted_base": TRUSTED_BASE_COMMON + ["hand model Query.v (qhash, hv_eqb, qeq) tied by correspondence", "twin table",
                                                "Print Assumptions: " + json.dumps(b["assumptions"])],
         "theorems": b["theorems"], "forbidden_tokens_found": b["forbidden"],
-        "evaluations": n * n, "expressions": n, "pairs_equal": n_equal, "commutativity_pairs_checked": comm_checked, "same_object_after_in_place_edit_checked": edited_checked, "queries_unchanged_by_deriving_from_them_checked": derived_checked,
+        "evaluations": n * n, "expressions": n, "pairs_equal": n_equal, "commutativity_pairs_checked": comm_checked, "same_object_after_in_place_edit_checked": edited_checked, "queries_unchanged_by_deriving_from_them_checked": derived_checked, "mutable_test_arguments_checked": mutable_checked,
         "distinct_nontrivial": sum(1 for i in range(n) for j in eq_rows[i] if i != j),
         "rule": "all ordered pairs over {vocabulary, near-duplicates, depth-1 closure of a core (exhaustive), sampled depth-2 expressions with their mirror images}: "
                 "q1 == q2 and is_hashable compared implementation vs model; for equal pairs, equal behaviour on the whole point universe and equal hash() checked "
